@@ -611,6 +611,10 @@ func c17Forwarding(c *h.Ctx) {
 			return
 		}
 	}
+	if ra, rb := pt.VerifIsReleased(a.eng), pt.VerifIsReleased(b.eng); ra != rb {
+		c.Violate("C17/manager-call-differs-from-engine-call", fmt.Sprintf("at the end of the scenario (last call: %s) the engine driven through the manager has released=%v, the one driven directly released=%v", map[int]string{0: "CloseTable", 1: "ReleaseTable"}[variant], ra, rb), map[string]interface{}{"manager": a.transcript})
+		return
+	}
 	if len(a.transcript) != len(b.transcript) {
 		c.Violate("C17/manager-and-engine-runs-diverge", fmt.Sprintf("%d steps via the manager, %d via the engine", len(a.transcript), len(b.transcript)), map[string]interface{}{"manager": a.transcript, "engine": b.transcript})
 		return
